@@ -82,7 +82,13 @@ class C03(runner.Prop):
             't': gen.tree_descs(ml, leaf=st.one_of(
                 gen.leaf_descs(), st.sampled_from(U.Bad.KINDS).map(lambda k: ['bad', k]))),
             'cfg': gen.configs(predicates=['none', 'never', 'tuple2', 'leaf_even'])})
-        return st.one_of(general, general, numeric, bad)
+        wrap_kinds = st.lists(st.sampled_from(['list', 'tuple', 'dict', 'od', 'dd', 'deque', 'nt', 'cg', 'ci']), min_size=1, max_size=3)
+        deep = st.fixed_dictionaries({
+            'kind': st.just('agree'),
+            't': st.tuples(wrap_kinds, st.sampled_from([50, 500, 990]), gen.tree_descs(5, max_depth=3)).map(
+                lambda t: ['wrap', ','.join(t[0]), t[1], t[2]]),
+            'cfg': gen.configs(predicates=['none', 'never', 'leaf_even'])})
+        return st.one_of(general, general, general, numeric, numeric, bad, bad, deep)
 
     # ------------------------------------------------------------------
     def check_case(self, case, ctx):
@@ -111,6 +117,8 @@ class C03(runner.Prop):
         acc8 = optree.tree_accessors(tree, **kw)
         n = spec.num_leaves
         ctx.nontrivial(n >= 2 and gen.contains_tag(case['t'], ('dict', 'od', 'dd', 'cg', 'cn', 'cs', 'cm', 'cu', 'ci', 'dc', 'partial')))
+        if case['t'][0] == 'wrap':
+            ctx.label('deep_nesting')
         if gen.insertion_mode(cfg):
             ctx.label('insertion_mode')
         if gen.insertion_mode(cfg) and gen.contains_tag(case['t'], ('dd',)) and gen.contains_tag(case['t'], ('cg', 'cn', 'cs', 'cm', 'cu', 'ci')):
